@@ -117,6 +117,17 @@ CONTROLS = [
     ('w5-trim-as-characters', 'W5', 'syn', 'get_str_trim:slice', [(API,
         '        let mut beg = None;\n        let mut end = 0;\n        let mut skip = false;\n        for n in Iter::new(nodes.into()).event() {',
         '        return self.get_str(nodes).map(|x| x.trim_end());\n        #[allow(unreachable_code)]\n        let mut beg = None;\n        let mut end = 0;\n        let mut skip = false;\n        while let Some(n) = Iter::new(nodes.into()).event().next() {', 1)]),
+    ('g12-hash-paren-lookahead', 'G12', 'syn', 'module_instantiation:lookahead-spans-tokens', [(PARSER + 'instantiations/module_instantiation.rs',
+        '    let (s, a) = module_identifier(s)?;\n', '    let (s, a) = module_identifier(s)?;\n    let (s, _) = peek(alt((map(tag("#("), |_| ()), map(instance_identifier, |_| ()))))(s)?;\n', 1)]),
+    ('x4-newline-after-final-comment', 'X4', 'syn', 'Enter(Comment):synthetic-text-in-plain-arm', [(PPF,
+        '                    ret.push(locate.str(&s), Some((path.as_ref(), range)));\n                } else {\n                    // A comment is white space',
+        '                    ret.push(locate.str(&s), Some((path.as_ref(), range)));\n                    if !locate.str(&s).ends_with(\'\\n\') {\n                        ret.push::<PathBuf>("\\n", None);\n                    }\n                } else {\n                    // A comment is white space', 1)]),
+    ('x4-strip-read-in-resolver', 'X4', 'syn', 'strip-read-outside-comment-arm:resolve_text_macro_usage', [(PPF,
+        '                actual_args.push(Some(arg));', '                if strip_comments && arg.starts_with("/*") {\n                    actual_args.push(None);\n                } else {\n                    actual_args.push(Some(arg));\n                }', 1)]),
+    ('x9-depth-bumped-in-place', 'X9', 'syn', 'include_depth:mutated', [(PPF,
+        '    strip_comments: bool,\n    resolve_depth: usize,\n    include_depth: usize,\n) -> Result<(PreprocessedText, Defines), Error> {\n\n    // IEEE1800-2017 Clause 22.4, page 675', '    strip_comments: bool,\n    resolve_depth: usize,\n    mut include_depth: usize,\n) -> Result<(PreprocessedText, Defines), Error> {\n\n    // IEEE1800-2017 Clause 22.4, page 675', 1),
+        (PPF, '                let (include, new_defines) =\n                    preprocess_inner(', '                include_depth += 1;\n                let (include, new_defines) =\n                    preprocess_inner(', 1),
+        (PPF, '                        resolve_depth,\n                        include_depth + 1).map_err(', '                        resolve_depth,\n                        include_depth).map_err(', 1)]),
     ('x11-include-unguarded', 'X11', 'syn', 'open-unguarded', [(PPF, 'NodeEvent::Enter(RefNode::IncludeCompilerDirective(x)) if !ignore_include => {', 'NodeEvent::Enter(RefNode::IncludeCompilerDirective(x)) => {', 1)]),
     ('x12-search-reversed', 'X12', 'syn', 'search-order', [(PPF, '                    for include_path in include_paths {', '                    for include_path in include_paths.iter().rev() {', 1)]),
     ('p2-utf8-error-without-path', 'P2', 'syn', 'read-error', [(PPF, 'Err(Error::ReadUtf8(PathBuf::from(path.as_ref())))', 'Err(Error::ReadUtf8(PathBuf::new()))', 1)]),
